@@ -1907,7 +1907,14 @@ feature! {
             // XXX(eliza): it's a bummer we have to do this linear search every
             // time. It would be nice if this could be cached, but that would
             // require replacing the `Vec` impl with an impl for a newtype...
-            if filter::is_psf_downcast_marker(id) && self.iter().any(|s| s.downcast_raw(id).is_none()) {
+            // A subscriber that is `Option::None` (or an empty `Vec`) has no
+            // say in this: it must behave as if it were not there.
+            if filter::is_psf_downcast_marker(id)
+                && self.iter().any(|s| {
+                    s.downcast_raw(id).is_none()
+                        && s.downcast_raw(TypeId::of::<NoneLayerMarker>()).is_none()
+                })
+            {
                 return None;
             }
 
